@@ -322,3 +322,77 @@ def correspondence(ctx):
 TRUSTED = TRUSTED + [
     "translator tie for the load paths: harness/translate_load.py (LoadPy) re-translates tz.tzfile.__init__ and zoneinfo.ZoneInfoFile.__init__ / get from /repo on every run into Generated/TzLoadKernels.lean (the reader they call is the translated Gen.readTzfile); C06.load_paths_equal proves that a file name, an open stream, a regular archive member and a link member hand the same bytes to the reader and carry the same zone data (build r); named primitives (Model/LoadPy.lean), trusted with their documented meaning and exercised by tzload.file / tzload.archive on every run: open(path,'rb') as a partial function, a stream as its bytes + .name + repr, `with` / _nullcontext handing the stream through, TarFile members in archive order (regular / hard link / symbolic link / other) with extractfile and getmember, dict as last-binding-wins, json.loads as identity on the text, _set_tzdata copying every attribute",
 ]
+
+
+# --- streams that do not start at offset 0 (wt-tzfile, seeded C06K): `tzfile(stream)` must decode the block AT THE STREAM'S POSITION
+# (several TZif blocks back to back, a block behind a foreign header) and leave the stream right behind the version-1 block it read
+def _v1_consumed(data):
+    import struct
+    isgmt, isstd, leap, timecnt, typecnt, charcnt = struct.unpack(">6l", data[20:44])
+    return 44 + timecnt * 5 + typecnt * 6 + charcnt + leap * 8 + isstd + isgmt
+
+
+def positioned_streams(ctx):
+    import tempfile
+    from dateutil import tz
+    rng = ctx.subrng("c06-positioned")
+    real, syn = zones_for(ctx)
+    pool = [(n, d) for n, d, _ in real[:12] + syn if Z.impl_load(d)[0] is not None and len(d) < 20000]
+    if len(pool) < 2:
+        return
+    tmp = tempfile.mkdtemp(prefix="verif-pos-")
+    try:
+        for k in range(ctx.budget(30, 200)):
+            (na, a), (nb, b) = rng.sample(pool, 2)
+            prefix = rng.choice([a, b"HDR!" * rng.randrange(1, 9), a + a, b""])
+            blob = prefix + b + rng.choice([b"", a, b"trailing bytes"])
+            want = Z.impl_dump(Z.impl_load(b)[0])
+            end = len(prefix) + _v1_consumed(b)
+            kinds = [("bytesio", lambda: io.BytesIO(blob))]
+            if k % 3 == 0:
+                path = os.path.join(tmp, "blob%d" % k)
+                open(path, "wb").write(blob)
+                kinds.append(("file", lambda path=path: open(path, "rb")))
+            for kind, mk in kinds:
+                f = mk()
+                try:
+                    f.seek(len(prefix))
+                    case = {"kind": "positioned", "stream": kind, "prefix": Z.hexs(prefix), "block": Z.hexs(b), "rest": Z.hexs(blob[len(prefix) + len(b):])}
+                    ctx.case(("positioned", kind, nb, len(prefix), k)); ctx.count("positioned_stream:" + kind)
+                    try:
+                        z = tz.tzfile(f, filename="positioned")
+                        got, pos = Z.impl_dump(z), f.tell()
+                    except Exception as ex:
+                        got, pos = "raised " + Z.exc_name(ex), None
+                    if got != want:
+                        ctx.violation("tzfile(stream positioned at offset %d) does not report the block at that position" % len(prefix), case,
+                                      {"got": got[:200], "want": want[:200]})
+                    elif pos != end:
+                        ctx.violation("tzfile(stream) leaves the stream at offset %s, the version-1 block it read ends at %d" % (pos, end), case, None)
+                finally:
+                    f.close()
+    finally:
+        import shutil
+        shutil.rmtree(tmp, ignore_errors=True)
+
+
+_oracle_without_positioned = oracle
+_replay_without_positioned = replay
+
+
+def oracle(ctx):
+    _oracle_without_positioned(ctx)
+    positioned_streams(ctx)
+
+
+def replay(ctx, payload):
+    c = payload["violation"]["case"]
+    if isinstance(c, dict) and c.get("kind") == "positioned":
+        from dateutil import tz
+        prefix, b, rest = (bytes.fromhex(c[k]) if c[k] != "." else b"" for k in ("prefix", "block", "rest"))
+        f = io.BytesIO(prefix + b + rest); f.seek(len(prefix))
+        z = tz.tzfile(f, filename="positioned")
+        ok = Z.impl_dump(z) == Z.impl_dump(Z.impl_load(b)[0]) and f.tell() == len(prefix) + _v1_consumed(b)
+        print("block at offset %d: reported %s, stream left at %d (block ends at %d)" % (len(prefix), "correctly" if Z.impl_dump(z) == Z.impl_dump(Z.impl_load(b)[0]) else "WRONGLY", f.tell(), len(prefix) + _v1_consumed(b)))
+        return ok
+    return _replay_without_positioned(ctx, payload)
